@@ -22,5 +22,5 @@ func TestC03(t *testing.T) {
 		t.Fatalf("VERIF-INFRA registry: %v", err)
 	}
 	st.Extra("framework_structs", len(r.Keys))
-	r.RunC03(t, st, 4000, 60000)
+	r.RunC03(t, st, 4000, 250000)
 }
